@@ -11,7 +11,7 @@ SETUP = (
 NUMS = ['0', '0 * -1', '1', '-1', '0.5', '-7', '3', '63', '64', '65', '2 ** 31', '2 ** 53', '2 ** 53 + 1',
         '2 ** 63', '-(2 ** 63)', '2 ** 64', '10 ** 308', '2 ** -1074', '2 ** 1024', '-(2 ** 1024)',
         '2 ** 1024 - 2 ** 1024', '1.5', '1000000', '999999', '0.1 + 0.2', '7 & 3', '1 << 40']
-STRS = ['""', '"য়"', '"য়"', '"١٢"', '"१"', '"１"', '"10%"', '"a"', '"abc"', '"5"', '"১০"', '"1e3"', '" 5"', '"-2"', '"অ"', '"ab" + "c"', '"" + ""', '"1.5"', '"0"', '"inf"', '"0x10"']
+STRS = ['""', '"\u09df"', '"\u09af\u09bc"', '"١٢"', '"१"', '"１"', '"10%"', '"a"', '"abc"', '"5"', '"১০"', '"1e3"', '" 5"', '"-2"', '"অ"', '"ab" + "c"', '"" + ""', '"1.5"', '"0"', '"inf"', '"0x10"']
 OTHERS = [NIL, TRUE, FALSE, '[]', '[1]', 'arr', 'arr2', 'arr3', '{}', 'ob', 'ob2', 'fn1', 'fn1b', 'fn2', LEN, CLOCK, SIN, COS]
 VALUES = [(e, 'num') for e in NUMS] + [(e, 'str') for e in STRS] + [(e, 'other') for e in OTHERS]
 
